@@ -174,6 +174,8 @@ type RSched struct {
 	Overrun        bool
 	Stalled        bool
 	GoCalls        int
+	Chain          int // generate mode: preemptions that are followed by one of the task that got control
+	arm            int
 	Leftover       int // goroutines of the library still blocked when the run ended (every caller task had finished)
 	live           int
 	pglobal        [64]int // generate mode: global yield indices at which whoever runs is preempted
@@ -530,6 +532,12 @@ func (rs *RSched) yield(site, class int) {
 				hit, key = true, PKey{t.ID, 0, i0}
 			}
 		}
+		if class == 1 && rs.arm > 0 { // chained preemptions, see Sched.yield
+			rs.arm--
+			if rs.arm == 0 && !hit {
+				hit, key = true, PKey{t.ID, 1, i1}
+			}
+		}
 		if hit {
 			_, nc := rs.nthRunnable(0, t)
 			if nc > 0 {
@@ -541,6 +549,10 @@ func (rs *RSched) yield(site, class int) {
 	}
 	if !hit || to == nil {
 		return
+	}
+	if !rs.Replay && rs.Chain > 0 {
+		rs.Chain--
+		rs.arm = 1 + rs.Rng.Intn(3)
 	}
 	rs.record(SchedDecision{Kind: "preempt", Yield: n, From: t.ID, To: to.ID, Site: site, Depth: t.depth, Class: key.Class, Idx: key.Idx})
 	if t.depth > 0 {
